@@ -298,15 +298,29 @@ def followups(blocks, kinetic):
     return f
 
 
+REDOX_PAIRS = {"Fe": ("Fe(2)", "Fe(3)"), "N": ("N(5)", "N(-3)"), "S": ("S(6)", "S(-2)")}      # phreeqc.dat / iso.dat style names
+
+
 def modify_text(blocks, others):
     """Route `modify`: everything but solution 1 as dumped; solution 1 = pure water of the same temperature, pressure
     and water mass, then SOLUTION_MODIFY with the element totals, total H, total O and charge of the dump only."""
     b = blocks[("SOLUTION_RAW", 1)]
     t = "".join(v["text"] for (k, n), v in blocks.items() if not (k == "SOLUTION_RAW" and n == 1))
     t += "".join(l + "\n" for l in others)
-    t += "END\nSOLUTION 1\n temp %r\n pressure %r\n pH 7\n -water %r\nEND\n" % (b["temp"], b["pressure"], b["mass_water"])
+    # the receiving solution holds two valence states of every redox element the dump lists as a plain element total:
+    # SOLUTION_MODIFY must replace them by the element total (stale valence-state entries would be counted twice)
+    val = [e for e in b["totals"] if "(" in e]
+    seed = "".join(" %s 1e-3\n" % e for e in val if e.split("(")[0] not in ("H", "O"))
+    seed += "".join(" %s 1e-3\n %s 1e-3\n" % REDOX_PAIRS[e] for e in b["totals"] if e in REDOX_PAIRS)
+    t += "END\nSOLUTION 1\n temp %r\n pressure %r\n pH 7\n%s -water %r\nEND\n" % (b["temp"], b["pressure"], seed, b["mass_water"])
     t += "SOLUTION_MODIFY 1\n -total_h %r\n -total_o %r\n -cb %r\n -totals\n" % (b["total_h"], b["total_o"], b["cb"])
+    # "only element totals": the valence-state entries of the dump are summed per element
+    el = {}
     for e, v in b["totals"].items():
+        base = e.split("(")[0]
+        key = e if base in ("H", "O") else base
+        el[key] = el.get(key, 0.0) + v
+    for e, v in el.items():
         t += "  %s %r\n" % (e, v)
     return t + "END\n"
 
